@@ -150,7 +150,7 @@ def crc24():
                     viol.append({'args': {'data': data.hex(), 'form': type(form).__name__}, 'violation': 'crc24 %06x != reference %06x' % (got, spec.crc24(data))})
                     return {'cases': cases, 'violations': viol}
         return {'cases': cases, 'violations': viol}
-    return Scenario(label, ARM + '.crc24', gen, props=('C10',), native=native)
+    return Scenario(label, ARM + '.crc24', gen, props=('C10', 'C14', 'C20', 'C07'), native=native)
 
 
 def scenarios():
@@ -212,7 +212,7 @@ def armor_writer(nlines):
             allb = lines[0] if len(lines) == 1 else z3.Concat(*lines)
             r.oblige(s, 'payload-lines-concatenate-to-the-base64-text/p%d' % pi, allb == p64)
         return r.result()
-    return Scenario(label, ARM + '.__str__', gen, props=('C10',))
+    return Scenario(label, ARM + '.__str__', gen, props=('C10', 'C14', 'C20', 'C07'))
 
 
 def scenarios():
@@ -276,7 +276,7 @@ def armor_reader_tail(with_crc):
             else:
                 r.oblige(s, 'no-checksum-line:no-warning,crc-is-None/p%d' % pi, z3.BoolVal(len(warned) == 0 and isinstance(d.get('crc'), E.VNone)))
         return r.result()
-    return Scenario(label, ARM + '.ascii_unarmor', gen, props=('C10',))
+    return Scenario(label, ARM + '.ascii_unarmor', gen, props=('C10', 'C14', 'C20'))
 
 
 _base_scn_r = scenarios
